@@ -482,6 +482,7 @@ impl Stream for Graphs
 			nodes: n,
 			edges,
 		} = dependency_graph(c, idx % 2 == 1);
+		note_case_class(if expected.is_some() { "planted cycle" } else { "acyclic" });
 		out.key = fnv(&src);
 		out.nontrivial = n >= 4 && edges >= 2;
 		match expected
